@@ -141,6 +141,33 @@ func c16(args []string) {
 			jobs = append(jobs, &job{s: s2, exp: exp2, cfg: cfg(), kind: "runto", what: mode + " " + strings.Join(targets, ",")})
 		}
 	}
+	// a parameter source (and a file source) feeding both a selected and an excluded process, more items than the buffer
+	for _, nv := range []int{3, 7} {
+		s := &spec.Spec{Name: fmt.Sprintf("sharedparams%d", nv), MaxTasks: 4, Sources: map[string]string{}}
+		var vals []string
+		src := &spec.Proc{Name: "src", Kind: spec.KFileSource}
+		for i := 0; i < nv; i++ {
+			vals = append(vals, fmt.Sprintf("v%d", i))
+			f := fmt.Sprintf("sp%d.txt", i)
+			src.Files = append(src.Files, f)
+			s.Sources[f] = f
+		}
+		s.Procs = append(s.Procs, src, &spec.Proc{Name: "ps", Kind: spec.KParamSource, Values: vals})
+		for _, n := range []string{"wanted", "other"} {
+			s.Procs = append(s.Procs, &spec.Proc{Name: n, Kind: spec.KCmd, Cmd: spec.BuildCmd(n, []spec.PortDecl{{Name: "in"}}, []spec.PortDecl{{Name: "out"}}, []string{"k"}, nil, nil)})
+			s.Conns = append(s.Conns, &spec.Conn{From: "src.out", To: n + ".in"}, &spec.Conn{From: "ps.out", To: n + ".k", Param: true})
+		}
+		for _, mode := range []string{"runto", "runtoregex", "runtoprocs"} {
+			s2 := s.Clone()
+			t := "wanted"
+			if mode == "runtoregex" {
+				t = "^wanted$"
+			}
+			s2.Run = spec.Run{Mode: mode, Targets: []string{t}}
+			exp2 := evalRef(s2, nil)
+			jobs = append(jobs, &job{s: s2, exp: exp2, cfg: Cfg{Buf: 2, Procs: 2, SoftSec: 8}, kind: "runto", what: mode + " wanted (shared sources, buffer 2)"})
+		}
+	}
 	// process names that contain regexp metacharacters, with siblings that differ only there
 	{
 		s := &spec.Spec{Name: "metanames", MaxTasks: 4, Sources: map[string]string{"m0.txt": "m0\n", "m1.txt": "m1\n"}}
